@@ -30,4 +30,7 @@ pub struct Meta {
    pub finding_id: Option<String>,
    #[serde(default)]
    pub fixed_input: Option<crate::val::Db>,
+   /// history of a fixed case (JSON of the runner's op list)
+   #[serde(default)]
+   pub fixed_ops: Option<String>,
 }
